@@ -416,3 +416,35 @@ Proof.
   - intros i k H. now apply assign_elems_miss.
   - apply assign_elems_shape.
 Qed.
+
+(* ---------------- a header between two files ---------------- *)
+
+(* what the file of a writer announces about EVLRs is what the writer was given — nothing when write_evlrs was not called or was
+   called with an empty list, k records right behind the points otherwise — whatever the header said before it came to the writer *)
+Theorem writer_announces_its_own_evlrs (minor hs hc e : Z) (given : option Z) (r : Z * Z) :
+  writer_evlr_fields minor hs hc e given = Some r ->
+  r = match given with
+      | Some k => if 0 <? k then (e, k) else (0, 0)
+      | None => (0, 0)
+      end.
+Proof.
+  unfold writer_evlr_fields, writer_init_resets, partial_reset_evlrs, write_evlrs_fields.
+  destruct given as [k|]; [destruct (minor <? 4); [discriminate|]; destruct (0 <? k)|]; intros H; inversion H; reflexivity.
+Qed.
+
+Theorem writer_evlrs_need_1_4 (minor hs hc e k : Z) : minor < 4 -> writer_evlr_fields minor hs hc e (Some k) = None.
+Proof.
+  intros H. unfold writer_evlr_fields, writer_init_resets, partial_reset_evlrs, write_evlrs_fields.
+  apply Z.ltb_lt in H. rewrite H. reflexivity.
+Qed.
+
+Theorem writer_evlrs_accepted (minor hs hc e : Z) (given : option Z) : 4 <= minor ->
+  exists r, writer_evlr_fields minor hs hc e given = Some r.
+Proof.
+  intros H. unfold writer_evlr_fields, writer_init_resets, partial_reset_evlrs, write_evlrs_fields.
+  destruct given as [k|]; [|eexists; reflexivity].
+  replace (minor <? 4) with false by (symmetry; apply Z.ltb_ge; lia). destruct (0 <? k); eexists; reflexivity.
+Qed.
+
+Lemma point_format_writers_all_sync : point_format_writers_sync = true.
+Proof. vm_compute. reflexivity. Qed.
